@@ -28,6 +28,45 @@ def classify_panic(detail):
     return "generator-panic", (goag[0].split(" ")[0] if goag else (first or "?"))
 
 
+GOOD_SPEC = '{"openapi":"3.0.3","info":{"title":"t","version":"1"},"paths":{"/ping":{"get":{"responses":{"200":{"description":"ok"}}}}}}'
+# a query parameter of an unsupported string format: the generator reports an error for it
+BAD_SPEC = '{"openapi":"3.0.3","info":{"title":"t","version":"1"},"paths":{"/ping":{"get":{"parameters":[{"in":"query","name":"h","schema":{"type":"string","format":"hostname"}}],"responses":{"200":{"description":"ok"}}}}}}'
+
+
+def cli_dir_mode(ctx):
+    """the --dir mode of the command: the exit status is non-zero iff some spec directory fails, wherever it sorts"""
+    import os
+    import subprocess
+    cli = os.path.join(ctx.scratch, "goag-cli-dir")
+    rc, out = core.run(["go", "build", "-o", cli, "./cmd/goag"], cwd="/repo", env=core.GOENV, timeout=600)
+    res = {"scenarios": 0, "agree": 0}
+    if rc != 0:
+        ctx.broken.append({"kind": "cli-build", "detail": out[-800:]})
+        return res
+    scenarios = [("all-fine", [("a_one", GOOD_SPEC), ("b_two", GOOD_SPEC)], False),
+                 ("broken-first", [("a_broken", BAD_SPEC), ("b_fine", GOOD_SPEC)], True),
+                 ("broken-last", [("a_fine", GOOD_SPEC), ("b_broken", BAD_SPEC)], True),
+                 ("broken-middle", [("a_fine", GOOD_SPEC), ("b_broken", BAD_SPEC), ("c_fine", GOOD_SPEC)], True),
+                 ("unreadable-first", [("a_garbage", "{not json"), ("b_fine", GOOD_SPEC)], True)]
+    for name, dirs, must_fail in scenarios:
+        root = ctx.sub("dirmode-" + name)
+        for dn, spec in dirs:
+            os.makedirs(os.path.join(root, dn), exist_ok=True)
+            with open(os.path.join(root, dn, "openapi.json"), "w") as f:
+                f.write(spec)
+        p = subprocess.run([cli, "--dir", root, "--spec", "openapi.json", "--package", "p", "--out", "gen"], stdout=subprocess.PIPE, stderr=subprocess.STDOUT, text=True, timeout=300)
+        res["scenarios"] += 1
+        crashed = "panic:" in p.stdout or "goroutine " in p.stdout
+        if (p.returncode != 0) == must_fail and not crashed:
+            res["agree"] += 1
+        else:
+            ctx.violations.append({"kind": "the command's exit status in --dir mode does not tell that a spec could not be generated" if not crashed else "the command crashed in --dir mode",
+                                   "scenario": name, "directories": [d for d, _ in dirs], "exit_status": p.returncode, "expected": "non-zero" if must_fail else "0",
+                                   "output_tail": p.stdout[-600:],
+                                   "how": "goag --dir <root> --spec openapi.json --package p --out gen, one sub-directory per listed name; *_broken holds a query parameter with format hostname, *_garbage is not JSON"})
+    return res
+
+
 def check(ctx):
     audit = core.proof_audit(ctx, ["GoagModel.Props.C15"], THEOREMS)
     vh = core.build_harness(ctx)
@@ -84,6 +123,7 @@ def check(ctx):
                 ctx.violations.append({"kind": "the generator panicked on a document the loader accepted", "components": r[1], "entries": bytes.fromhex(r[2]).decode(),
                                        "panic": bytes.fromhex(r[4]).decode("utf-8", "replace")[:800], "spec": bytes.fromhex(r[5]).decode("utf-8", "replace")})
                 break
+    dir_mode = cli_dir_mode(ctx) if vh else {}
     outcomes, kinds = {}, {}
     samples = []
     cli = {"runs": 0, "exit0_on_ok": 0, "exit1_on_error": 0}
@@ -137,7 +177,7 @@ def check(ctx):
         "evaluations": len(rows), "distinct_nontrivial": len(distinct),
         "rule": "base documents = 42 fixture specs + 3 map-fat specs + 6 generated routing/parameter/security specs; faults = for every JSON position: delete the key / null the value / swap the JSON type (quick: 12 seeded positions per base, thorough: all), plus targeted faults (content parameter, dangling $ref, unknown type/format, array without items, non-string server default/enum, self-referencing schema, alias cycle, unknown security scheme, media type without schema); non-trivial = the loader accepted the mutant (generator outcome ok or error); distinct by (base, fault)",
         "samples": samples, "outcomes": outcomes, "fault_kinds": kinds, "cli": cli, "panic_sites": sorted(seen_sites),
-        "harness_stats": meta.get("stats", {}), "alias_tie": alias,
+        "harness_stats": meta.get("stats", {}), "alias_tie": alias, "cli_dir_mode": dir_mode,
         "explanation": "single structural faults enumerated over corpus documents; the generator must return ok or a located error for every mutant the loader accepts, and the CLI must exit non-zero exactly on error",
     })
     return core.finish(ctx, "fault_enumeration", cov, ["documents the loader rejects (or crashes on) are outside the statement"])
